@@ -8,7 +8,7 @@ SPEC = {'id': 'C20',
  'modules': [_P],
  'theorems': [('Snowflake.Props.C20', _H + n) for n in ['lockset_ordered', 'lockset_ordered_wr', 'lockset_ordered_rw', 'holds_unique']]
              + [(_P, _N + n) for n in ['no_unordered_conflict', 'C20_no_race']],
- 'ties': [(_P, _N + n) for n in ['table_disciplined', 'table_covered', 'table_populated']],
+ 'ties': [(_P, _N + n) for n in ['table_disciplined', 'table_covered', 'table_populated', 'tracked_types_present']],
  'parallel': 4,
  'harness': [
      {'pkg': 'broker', 'test': 'TestVerifC20Broker$', 'race': True, 'timeout': '10m'},
